@@ -109,3 +109,12 @@ Theorem C09_demo_program :
   /\ zassoc_get 30%Z (l_syms (pg_link (compile_asts data_demo 0))) = Some (4, 2) /\ data_index_of_line data_demo 30 = 2.
 Proof. exact data_demo_facts. Qed.
 Print Assumptions C09_demo_program.
+
+(* DATA in a direct line: the fragment is refused before anything of it is merged -- the link, and with it the program's data
+   segment, is exactly what it was (a guard placed behind the merge, as in three seeded changes, fails this) *)
+Theorem C09_direct_data_is_refused_whole : forall f l, l_direct_set l = true -> l_data f <> [] ->
+  l_append f l = (l, err E_IllegalDirect).
+Proof.
+  intros f l Hd Hf. unfold l_append. rewrite Hd. destruct (l_data f); [contradiction | reflexivity].
+Qed.
+Print Assumptions C09_direct_data_is_refused_whole.
